@@ -952,6 +952,12 @@ class WalletTransaction(Transaction):
             tx_output = sess.query(DbTransactionOutput). \
                 filter_by(transaction_id=txidn, output_n=to.output_n).scalar()
             if not tx_output:
+                if not spent and sess.query(DbTransactionInput).join(DbTransaction).filter(
+                        DbTransactionInput.prev_txid == bytes.fromhex(self.txid),
+                        DbTransactionInput.output_n == to.output_n,
+                        DbTransaction.wallet_id == self.hdwallet.wallet_id).first():
+                    # A stored transaction of this wallet consumes this output already
+                    spent = True
                 new_tx_item = DbTransactionOutput(
                     transaction_id=txidn, output_n=to.output_n, key_id=key_id, address=to.address, value=to.value,
                     spent=spent, script=to.lock_script, script_type=to.script_type, is_change=to.change)
